@@ -775,6 +775,12 @@ func (s *Sim) oracleC10(op Op, evs []SIEvent) {
 		n := len(app.States)
 		if n >= 2 {
 			from, to := app.States[n-2], app.States[n-1]
+			if app.dupSubmitted() && (from == "Expired" || to == "Expired") {
+				// the id was submitted twice: the refused duplicate is a second object under the same id (it sits in the
+				// rejected list and expires there); its report is not a state of the application that runs
+				s.probe("report_of_rejected_duplicate")
+				continue
+			}
 			if from != to && !reachable(from, to, 3) {
 				s.violate("C10", "reported-transition", from+"->"+to, "application %s reported %s after %s: not reachable through documented edges", e.App, to, from)
 			}
